@@ -13,7 +13,7 @@ FUNCTIONS = ["FlodymArray.__setitem__", "FlodymArray.set_values", "FlodymArray._
              "SubArrayHandler._init_ids", "SubArrayHandler._init_dims_out"]
 ASSUMPTIONS = ["sources under a subset-Dimension key carry that same subset Dimension (same letter and items)"]
 OUTSIDE = ["FlodymArray sources under list selectors", "targets with more than 4 dimensions", "keyed (non-ellipsis) ndarray assignment with a broadcastable shape (numpy semantics, not claimed by the property)"]
-VARIANTS = 'keys by letter and by name; one key object mutated between assignments; integer items out of order; dtype shadow (float64 target, integer right-hand sides); int fill followed by fractions (dtype shadow)'
+VARIANTS = 'list selectors (several items of a dimension that keeps its letter) with FlodymArray right-hand sides, the list also as ndarray / tuple / dict keys; keys by letter and by name; one key object mutated between assignments; integer items out of order; dtype shadow (float64 target, integer right-hand sides); int fill followed by fractions (dtype shadow)'
 BOUNDS = {
     "quick": dict(targets="(a2) (a2,b3) (b3,a2) (a2,b2) (a2,b3,c2)", keys="ellipsis + every none/item/subset selector tuple (subsets <= 2 items on 3-d)",
                   sources="every ordered subset of region letters + up to 2 surplus letters; number; ndarray exact / wrong shapes", histories="all ordered pairs of 2-d keys x {number, array}"),
@@ -45,7 +45,8 @@ def configs(tier, seed):
     for shape in (TARGETS_Q if tier == "quick" else TARGETS_T):
         td, lens = _parse(shape)
         big = len(td) >= 3
-        sels = list(selector_tuples(td, lens, ("none", "item", "sub"), sub_limit=2 if big else None, max_sub_dims=1 if big else None))
+        # (list selectors -- several items of a dimension that keeps its letter -- on the smaller targets)
+        sels = list(selector_tuples(td, lens, ("none", "item", "sub") if big else ("none", "item", "sub", "list"), sub_limit=2 if big else None, max_sub_dims=1 if big else None))
         for sel in sels:
             out_letters, out_idx, fixed = region(sel, td, lens)
             extras = [l for l in U if l not in out_letters and SUBLETTER.get(l) not in out_letters][: (2 if tier == "quick" else 3)]
@@ -69,6 +70,9 @@ def configs(tier, seed):
                     continue
                 # (keys name their dimension by letter; every other source arrangement also by the dimension's name)
                 sps = ["ellipsis"] if all(s[0] == "none" for s in sel) else (["dictl", "dictn"] if len(out) % 2 else ["dictl"])
+                if any(s[0] == "list" for s in sel) and sps != ["ellipsis"]:
+                    # the several items of a list selector handed over as another iterable than a list
+                    sps = sps + [["dictl_nd", "dictl_tup", "dictl_it"][len(out) % 3]]
                 for sp in sps:
                     out.append(dict(h="assign_fa", op=sp, key=f"assign_fa/{shape}/{sel_key(sel)}/{sp}/src={sd or '-'}", td=td, lens=lens,
                                     sel=[list(s) for s in sel], sp=sp, sd=sd))
@@ -149,8 +153,11 @@ def _expected_region(w, sel, td, lens, S, sd, dims_all):
     oshape = tuple(len(i) for i in out_idx)
     surplus = [l for l in sd if l not in out_letters]
     exp = {}
+    listed = {l: list(s_[1]) for l, s_ in zip(td, sel) if s_[0] == "list"}
     for pos in np.ndindex(*oshape):
-        lab = dict(zip(out_letters, pos))
+        # (a list selector keeps the dimension's own letter: the source carries the whole dimension and is matched by label,
+        # i.e. read at the position of the listed item; a subset Dimension has its own letter and its own positions)
+        lab = {l: (listed[l][p] if l in listed else p) for l, p in zip(out_letters, pos)}
         tot = 0
         # summed in the reverse of any natural loop order on purpose: equality with flodym's sum is
         # then a solver-decided identity (associativity/commutativity), not a coincidence of term shape
